@@ -1244,7 +1244,15 @@ func (z *Decimal) SetMantExp(mant *Decimal, exp int) *Decimal {
 	if z.form != finite {
 		return z
 	}
-	z.setExpAndRound(int64(z.exp)+int64(exp), 0)
+	// Clamp exp so that the sum below cannot wrap around in int64: any
+	// exponent beyond ±2**33 leaves the [MinExp, MaxExp] range anyway.
+	e := int64(exp)
+	if e > 1<<33 {
+		e = 1 << 33
+	} else if e < -1<<33 {
+		e = -1 << 33
+	}
+	z.setExpAndRound(int64(z.exp)+e, 0)
 	return z
 }
 
